@@ -237,7 +237,7 @@ fn main() {
         'pools: for &t in POOLS.iter() {
             for _ in 0..REPS {
                 let j = job.clone();
-                match guarded(t, Duration::from_secs(60), move || j()) {
+                match guarded(t, Duration::from_secs(120), move || j()) {
                     Guarded::Done(p) => outs.push(coq_nlist(p.iter().map(|x| *x as u128))),
                     Guarded::Panic(m) => {
                         panics += 1;
